@@ -506,3 +506,21 @@ class Sim:
 
     def here(self):
         return self.fn.line_of(*self.cur) if self.cur else self.fn.line
+
+
+class _FactProbe(Client):
+    def __init__(self, pos):
+        self.pos = pos
+        self.seen = []
+
+    def node(self, st, n, sim):
+        if sim.cur == self.pos and (not self.seen or self.seen[-1] is not sim.facts):
+            self.seen.append(sim.facts)
+        return st
+
+
+def facts_at(fn, pos):
+    """Fact stores (one per explored path state) when execution reaches pos."""
+    cl = _FactProbe(pos)
+    Sim(fn, cl, max_states=20000).run()
+    return cl.seen
